@@ -1,5 +1,6 @@
-\* C19 growth: the std sources evaluated by Eval.tla against the reference (the driver generates this
-\* configuration with SrcDevs = the deviations of the findings that are still open)
+\* C19 growth: the std sources evaluated by Eval.tla against the reference.  Needs the environment
+\* variable C19_SRC = a JSON file written by vp/stdsrc.py (the driver generates its own copy of this configuration
+\* with SrcDevs = the deviations of the findings that are still open).
 CONSTANTS
   Families = {"list1", "enum", "zip", "slice", "join", "tuple", "str1", "split", "splitat", "substr", "parseint", "maybe", "basetype", "shaped", "anyall"}
   Size = "src"
